@@ -9,6 +9,7 @@ namespace EPV.Syn
 of the matching kind -/
 structure GramOK (G : Gram) : Prop where
   lkind_lt : ∀ k lk, G.lkind k = some lk → k < G.top
+  pre_not_ulk : ∀ p j, G.pre p = some j → G.ulk p = false
   led_kind : ∀ o j kd, G.led o = some (j, kd) →
     (kd = .left → G.lkind j = some .left) ∧ (kd = .none → G.lkind j = some .none) ∧
     (kd = .typed → G.lkind j = some .typed) ∧ ((∃ c e, kd = .bracket c e) → G.lkind j = some .postfix) ∧
@@ -40,29 +41,43 @@ theorem ebnf_sound_aux (G : Gram) (hG : GramOK G) : ∀ f,
           simp [wf, lvl, Tree.yield, hk]
         · rename_i g rest0
           split at h
-          · rename_i c eo hg
+          · -- unary lookup
+            rename_i hu
             split at h
-            · rename_i c' rest'
+            · rename_i x rest' hx
               split at h
-              · rename_i hc
-                simp only [Bool.and_eq_true, beq_iff_eq] at hc
+              · rename_i hks
                 simp at h; obtain ⟨rfl, rfl⟩ := h
-                obtain ⟨heo, rfl⟩ := hc
-                simp [wf, hg, lvl, Tree.yield, Tree.isNil, heo, hk]
+                have := ihe k _ _ _ hk hx
+                refine ⟨by simp [wf, hu, hks, this.1], by simp [lvl, hu, hk], ?_⟩
+                rw [← this.2.2]; simp [Tree.yield]
               · simp at h
-            · split at h
-              · rename_i e c' rest' he
+            · simp at h
+          · rename_i hu
+            split at h
+            · rename_i c eo hg
+              split at h
+              · rename_i c' rest'
                 split at h
                 · rename_i hc
-                  simp only [beq_iff_eq] at hc
-                  subst hc
+                  simp only [Bool.and_eq_true, beq_iff_eq] at hc
                   simp at h; obtain ⟨rfl, rfl⟩ := h
-                  have := ihe 0 _ _ _ (Nat.zero_le _) he
-                  refine ⟨by simp [wf, hg, this.1], by simp [lvl, hk], ?_⟩
-                  rw [← this.2.2]; simp [Tree.yield]
+                  obtain ⟨heo, rfl⟩ := hc
+                  simp [wf, hg, lvl, Tree.yield, Tree.isNil, heo, hk]
                 · simp at h
-              · simp at h
-          · simp at h
+              · split at h
+                · rename_i e c' rest' he
+                  split at h
+                  · rename_i hc
+                    simp only [beq_iff_eq] at hc
+                    subst hc
+                    simp at h; obtain ⟨rfl, rfl⟩ := h
+                    have := ihe 0 _ _ _ (Nat.zero_le _) he
+                    refine ⟨by simp [wf, hg, this.1], by simp [lvl, hk], ?_⟩
+                    rw [← this.2.2]; simp [Tree.yield]
+                  · simp at h
+                · simp at h
+            · simp at h
         · simp at h
       · -- prefix level
         rename_i hlk
@@ -76,7 +91,8 @@ theorem ebnf_sound_aux (G : Gram) (hG : GramOK G) : ∀ f,
             · rename_i x rest' hx
               simp at h; obtain ⟨rfl, rfl⟩ := h
               have := ihe k _ _ _ hk hx
-              refine ⟨by simp [wf, hp, this.1, this.2.1], by simp [lvl, hp], ?_⟩
+              have hnu := hG.pre_not_ulk p k hp
+              refine ⟨by simp [wf, hnu, hp, this.1, this.2.1], by simp [lvl, hnu, hp], ?_⟩
               rw [← this.2.2]; simp [Tree.yield]
             · simp at h
           · have := ihe (k + 1) _ _ _ (by omega) h
@@ -224,6 +240,20 @@ theorem gramOf_ok (levels : List Level) (ep : Bool) (syms : List String) : GramO
     obtain ⟨L, hL, -⟩ := h
     have := List.getElem?_eq_some_iff.1 hL
     exact this.1
+  · intro p j h
+    simp only [gramOf] at h ⊢
+    split at h
+    · rename_i s hs
+      cases hu : (syms[p]? == some "?") with
+      | false => simp
+      | true =>
+        have hs' : s = "?" := by
+          rw [hs] at hu; simpa using hu
+        subst hs'
+        cases hf : findLevel true "?" levels 0 with
+        | none => rw [hf] at h; simp at h
+        | some v => simp
+    · simp at h
   · intro o j kd h
     simp only [gramOf] at h
     split at h
